@@ -106,3 +106,23 @@ inline std::string showGamma(const Gamma& G) {
 }
 
 }  // namespace rs
+
+namespace rs {
+// library typification -> model type, read through the public accessors only
+inline Ty fromLibType(const rl::Typification& t) {
+  if (t.IsElement()) return Ty::Base(t.E().baseID);
+  if (t.IsTuple()) { std::vector<Ty> cs; for (rl::Index i = 1; i <= t.T().Arity(); ++i) cs.push_back(fromLibType(t.T().Component(i))); Ty r; r.k = Ty::TUPLE; r.comps = cs; return r; }
+  return Ty::Set(fromLibType(t.B().Base()));
+}
+inline Ty fromLibExprType(const rl::ExpressionType& t) { if (std::holds_alternative<rl::LogicT>(t)) return Ty::Logic(); return fromLibType(std::get<rl::Typification>(t)); }
+// deep structural check; the any-type R0 admits every value
+inline bool hasTypeDeep(const Val& v, const Ty& t) {
+  if (t.isAny()) return true;
+  switch (t.k) {
+    case Ty::BASE: return v.k == Val::INT;
+    case Ty::TUPLE: if (v.k != Val::TUPLE || v.items.size() != t.comps.size()) return false; for (size_t i = 0; i < v.items.size(); ++i) if (!hasTypeDeep(v.items[i], t.comps[i])) return false; return true;
+    case Ty::SET: if (v.k != Val::SET) return false; for (auto& e : v.items) if (!hasTypeDeep(e, t.elem())) return false; return true;
+    default: return false;
+  }
+}
+}  // namespace rs
